@@ -254,6 +254,11 @@ class _seat_bidding:
     def ensures_success_iff_end_marker(result, frame):
         return iff(result, frame.message == M.NULL)
 
+    # ... and it gives up only when the main thread said so (an illegal call / an error), never
+    # on the announcement of a seat on turn
+    def ensures_gives_up_only_when_told(result, frame):
+        return implies(not result, disj(frame.message == M.ILLEGAL_BID, frame.message == M.ERROR))
+
 
 def _seat_play_outer_inv(self, declarer, dummy, idx):
     return conj(pt_inv(self), dummy is G.partner(declarer))
